@@ -13,6 +13,7 @@ From Coq Require Import List ZArith Bool.
 Import ListNotations.
 Require Import MW.Codec.Bip32.
 Require MW.Codec.Bip39.
+Require Import MW.Keys.Unlock.
 Open Scope Z_scope.
 
 Definition purpose44 : Z := 44.
@@ -117,6 +118,9 @@ Section Derive.
   (* allocAddrMgrNamespace: recover the entropy from the JSON with the passphrase,
      then NewMnemonic(entropy), NewSeed(mnemonic, pass) *)
   Definition import_keystore_seed (j : keystore_json) (pass : bytes) : option (Bip39.outcome (bytes * bytes)) :=
+    (* unmarshalMasterPrivKey: "if endsWithNUL(privPass) { return ErrInvalidPassphrase }" (/repo
+       commit 30c1bd3), then DeriveKey against the digest of the JSON's own parameters *)
+    if ends_nul pass then None else
     match open_box (kdf pass (j_salt j)) (j_cent_enc j) with
     | None => None
     | Some cke =>
